@@ -463,6 +463,12 @@ func ReadPacket(data io.Reader) (p *Packet, err error) {
 		}
 	}
 
+	// Frames() divides the payload length by the frame size: a shape is usable only
+	// together with a format of nonzero word length.
+	if p.shape != nil && (p.format == nil || p.format.wordlen <= 0) {
+		return nil, fmt.Errorf("packet has a payload shape but no payload format of nonzero word length")
+	}
+
 	if p.payloadLength > 0 && p.format != nil {
 		if len(p.format.dtype) == 1 {
 
